@@ -50,6 +50,9 @@ impl<'a, T: DDNNFPtr<'a>> IteTable<'a, T> for LruIteTable<T> {
                 f.hash(&mut hasher);
                 g.hash(&mut hasher);
                 h.hash(&mut hasher);
+                #[cfg(feature = "verif")]
+                return crate::verif::weaken_ite_hash(hasher.finish());
+                #[cfg(not(feature = "verif"))]
                 hasher.finish()
             }
             Ite::IteConst(_) => 0, // do not cache base-cases
